@@ -511,6 +511,13 @@ class SymNum(Sym):
         ot = lift(o)
         if ot is None:
             return NotImplemented
+        if isinstance(o, (int, float, fractions.Fraction)) and not isinstance(o, bool) and o == 0 and Ctx.cur is not None:
+            # python: 0 ** 0 == 1, 0 ** positive == 0, 0 ** negative raises - decided by forks on the symbolic exponent
+            if SymBool(s.t == 0):
+                return 1
+            if SymBool(s.t < 0):
+                raise ZeroDivisionError("0 cannot be raised to a negative power")
+            return 0
         if z3.is_int(s.t):
             sv = z3.simplify(s.t)
             if z3.is_int_value(sv):
